@@ -141,6 +141,14 @@ Fixpoint c06_walk (k : option nat) (inflight : list N) (incb : list N) (h : hist
    (retries waiting for their delay aside), and with nothing in flight also every serial one *)
 Definition is_final_failure (evs : list scev) (rt : retr) : bool :=
   attempt_failed evs && match rt with Some (_, l) => l =? 0 | None => true end.
+(* is the next record — bracket events emitted by the loop turns themselves aside — another loop turn? *)
+Fixpoint next_is_top (h : hist) : bool :=
+  match h with
+  | (HTop _, _) :: _ => true
+  | (HEv (EvFeatS _), _) :: t | (HEv (EvRuleS _ _), _) :: t | (HEv (EvFeatF _), _) :: t | (HEv (EvRuleF _ _), _) :: t =>
+    next_is_top t
+  | _ => false
+  end.
 Fixpoint fills_walk (k : option nat) (items : list item) (seen : hist) (inflight : list N) (started : list N)
                     (pending : nat) (tripped : bool) (ff : bool) (h : hist) : bool :=
   match h with
@@ -155,18 +163,37 @@ Fixpoint fills_walk (k : option nat) (items : list item) (seen : hist) (inflight
                           (events_of seen') in
       fills_walk k items seen' (filter (fun x => negb (x =? s)) inflight) started pending
                  (tripped || (ff && is_final_failure evs rt)) ff t
-    | HTop 0 =>
-      (* `pending` attempts were dispatched by earlier turns but have not emitted Started yet *)
-      (if ltK (length inflight + pending) k && negb tripped then
+    | HTop b =>
+      (* judged at the LAST of a run of consecutive loop turns (attempts that completed within one poll are
+         collected one per turn, each turn refilling one slot): with `pending` attempts dispatched but not yet
+         Started, a free slot means that no concurrent scenario was ready. A ready SERIAL scenario may have to wait
+         (C07 governs those), and when a serial scenario has been ingested a turn may consist of it alone. *)
+      let pending' := (pending + N.to_nat b)%nat in
+      let last := negb (next_is_top t) in
+      (if last && ltK (length inflight + pending') k && negb tripped then
          let scs := flat_map sf_scens (ingested items seen') in
          let waiting := filter (fun sc => negb (memN (ss_id sc) started)) scs in
-         let truly := (length waiting - pending)%nat in
+         let truly := (length waiting - pending')%nat in
          Nat.eqb truly 0
-         || (Nat.leb truly (length (filter ss_serial waiting)) && Nat.ltb 0 (length inflight + pending))
+         || (if b =? 0 then Nat.leb truly (length (filter ss_serial waiting)) else negb (is_nil (filter ss_serial scs)))
        else true)
-      && fills_walk k items seen' inflight started pending tripped ff t
-    | HTop b => fills_walk k items seen' inflight started (pending + N.to_nat b) tripped ff t
+      && fills_walk k items seen' inflight started pending' tripped ff t
     | _ => fills_walk k items seen' inflight started pending tripped ff t
+    end
+  end.
+
+(* "after each completion": the harness applies a stimulus only when the stream has returned Pending, i.e. when
+   the runner is quiescent. By then every attempt that has emitted Finished has been followed by a loop turn
+   (which refills its slot) — a completion the loop does not notice leaves its slot empty. *)
+Fixpoint turn_walk (unseen : bool) (h : hist) : bool :=
+  match h with
+  | [] => true
+  | (r, _) :: t =>
+    match r with
+    | HEv (EvScen _ _ _ _ ScFinished) => turn_walk true t
+    | HTop _ => turn_walk false t
+    | HStimP | HStimG _ | HStimT _ => negb unseen && turn_walk unseen t
+    | _ => turn_walk unseen t
     end
   end.
 
@@ -174,6 +201,7 @@ Definition strip_passthrough (es : list ev) : list ev := es.
 Definition c06_ok (k : option nat) (ff : bool) (items : list item) (h : hist) : bool :=
   c06_walk k [] [] h
   && fills_walk k items [] [] [] 0 false ff h
+  && turn_walk false h
   (* events of an attempt lie between its Started and Finished (contract), so with a limit of 1 the bound
      above already says that attempts run strictly one after another and never interleave *)
   && contract_prefix (events_of h).
